@@ -1,0 +1,248 @@
+//go:build verif
+
+// Contracts for package filefmt, read by /verif/govc. Not part of a normal build.
+// Layout facts are taken from the Microsoft PE/COFF specification (file header 20 bytes,
+// section header 40 bytes, symbol record 18 bytes, string table = 4-byte total size
+// followed by NUL-terminated names, long names = 4 zero bytes + 4-byte offset into the
+// string table counted from the size field).
+
+package filefmt
+
+import (
+	"bytes"
+	"sort"
+)
+
+var _ = bytes.MinRead
+
+func old[T any](x T) T { return x }
+
+func forall(lo, hi int, p func(k int) bool) bool {
+	for k := lo; k < hi; k++ {
+		if !p(k) {
+			return false
+		}
+	}
+	return true
+}
+
+// forallStrings(p): p holds for every string (ghost quantifier; not executable).
+func forallStrings(p func(k string) bool) bool { return true }
+
+func vcSortPerm(i int) int { return i }
+
+func forallKeys[V any](m map[string]V, p func(k string) bool) bool {
+	for k := range m {
+		if !p(k) {
+			return false
+		}
+	}
+	return true
+}
+
+// specLE32 reads a little-endian 32-bit field.
+func specLE32(b []byte, o int) uint32 {
+	return uint32(b[o]) | uint32(b[o+1])<<8 | uint32(b[o+2])<<16 | uint32(b[o+3])<<24
+}
+
+// specStrAt: the table content tab (without the 4-byte size field) holds s followed by NUL at p.
+func specStrAt(tab []byte, p int, s string) bool {
+	return p >= 0 && p+len(s)+1 <= len(tab) && tab[p+len(s)] == 0 &&
+		forall(0, len(s), func(i int) bool { return tab[p+i] == s[i] })
+}
+
+// specStrTabOK: every remembered offset points (counted from the size field) at its name.
+func specStrTabOK(tab []byte, m map[string]uint32) bool {
+	return forallKeys(m, func(k string) bool { return m[k] >= 4 && specStrAt(tab, int(m[k])-4, k) })
+}
+
+func specHas(m map[string]uint32, k string) bool { _, ok := m[k]; return ok }
+
+// specNameIsM: as specNameIs, with the offset remembered in the de-duplication map m instead of
+// the table content (specStrTabOK connects the two).
+func specNameIsM(nm [8]byte, m map[string]uint32, s string) bool {
+	if len(s) <= 8 {
+		return specName8(nm, s)
+	}
+	off := uint32(nm[4]) | uint32(nm[5])<<8 | uint32(nm[6])<<16 | uint32(nm[7])<<24
+	return nm[0] == 0 && nm[1] == 0 && nm[2] == 0 && nm[3] == 0 && specHas(m, s) && off == m[s]
+}
+
+// specNameIs: the 8-byte name field nm denotes s (PE/COFF 5.4.1): inline and NUL padded when
+// it fits, otherwise four zero bytes and the offset of s in the string table.
+func specNameIs(nm [8]byte, tab []byte, s string) bool {
+	if len(s) <= 8 {
+		return specName8(nm, s)
+	}
+	off := uint32(nm[4]) | uint32(nm[5])<<8 | uint32(nm[6])<<16 | uint32(nm[7])<<24
+	return nm[0] == 0 && nm[1] == 0 && nm[2] == 0 && nm[3] == 0 && off >= 4 && specStrAt(tab, int(off)-4, s)
+}
+
+//@ func (*CoffFormat).convertNameToBytes
+//@ props C08 C09 C13
+//@ requires stringTable != nil && offsetMap != nil
+//@ requires len(stringTable.Bytes()) < 1<<30
+//@ requires specStrTabOK(stringTable.Bytes(), offsetMap)
+//@ ensures[name.short] len(name) <= 8 ==> specNameIs(result0, stringTable.Bytes(), name)
+//@ ensures[name.known] len(name) > 8 && old(specHas(offsetMap, name)) ==> specNameIs(result0, stringTable.Bytes(), name)
+//@ ensures[name.new] len(name) > 8 && !old(specHas(offsetMap, name)) ==> specNameIs(result0, stringTable.Bytes(), name)
+//@ ensures[tab] specStrTabOK(stringTable.Bytes(), offsetMap)
+//@ ensures[grow] len(stringTable.Bytes()) >= old(len(stringTable.Bytes())) && forall(0, old(len(stringTable.Bytes())), func(i int) bool { return stringTable.Bytes()[i] == old(stringTable.Bytes()[i]) })
+//@ ensures[short] len(name) <= 8 ==> len(stringTable.Bytes()) == old(len(stringTable.Bytes()))
+//@ ensures[bound] len(stringTable.Bytes()) <= old(len(stringTable.Bytes()))+len(name)+1
+//@ ensures[nameM] specNameIsM(result0, offsetMap, name)
+//@ ensures[mono] forallStrings(func(k string) bool { return old(specHas(offsetMap, k)) ==> specHas(offsetMap, k) && offsetMap[k] == old(offsetMap[k]) })
+//@ ensures[monoP] old(specHas(offsetMap, name)) ==> offsetMap[name] == old(offsetMap[name])
+//@ assigns Buffer.buf, map[string]uint32
+
+// specPadByte: byte i of a NUL padded field holding s.
+func specPadByte(b byte, s string, i int) bool {
+	return i < len(s) && b == s[i] || i >= len(s) && b == 0
+}
+
+// specName8: nm holds the short name s inline, NUL padded.
+func specName8(nm [8]byte, s string) bool {
+	return len(s) <= 8 && specPadByte(nm[0], s, 0) && specPadByte(nm[1], s, 1) && specPadByte(nm[2], s, 2) && specPadByte(nm[3], s, 3) &&
+		specPadByte(nm[4], s, 4) && specPadByte(nm[5], s, 5) && specPadByte(nm[6], s, 6) && specPadByte(nm[7], s, 7)
+}
+
+// specPad18: the 18-byte record a holds s NUL padded (s cut off after 18 bytes).
+func specPad18(a []byte, s string) bool {
+	return len(a) == 18 && specPadByte(a[0], s, 0) && specPadByte(a[1], s, 1) && specPadByte(a[2], s, 2) && specPadByte(a[3], s, 3) &&
+		specPadByte(a[4], s, 4) && specPadByte(a[5], s, 5) && specPadByte(a[6], s, 6) && specPadByte(a[7], s, 7) &&
+		specPadByte(a[8], s, 8) && specPadByte(a[9], s, 9) && specPadByte(a[10], s, 10) && specPadByte(a[11], s, 11) &&
+		specPadByte(a[12], s, 12) && specPadByte(a[13], s, 13) && specPadByte(a[14], s, 14) && specPadByte(a[15], s, 15) &&
+		specPadByte(a[16], s, 16) && specPadByte(a[17], s, 17)
+}
+
+// specZero4to18: bytes 4..17 of an 18-byte record are zero.
+func specZero4to18(a []byte) bool {
+	return len(a) == 18 && a[4] == 0 && a[5] == 0 && a[6] == 0 && a[7] == 0 && a[8] == 0 && a[9] == 0 && a[10] == 0 && a[11] == 0 &&
+		a[12] == 0 && a[13] == 0 && a[14] == 0 && a[15] == 0 && a[16] == 0 && a[17] == 0
+}
+
+// specAuxOK: the number of auxiliary records announced by the main record is the number of
+// 18-byte records that follow it.
+func specAuxOK(e SymbolEntry) bool {
+	return e.Aux == nil && e.Main.NumberOfAuxSymbols == 0 || len(e.Aux) == 18 && e.Main.NumberOfAuxSymbols == 1
+}
+
+// specFileSym: the .file symbol (PE/COFF 5.5.4: storage class FILE, section DEBUG, one auxiliary
+// record holding the file name padded with NULs).
+func specFileSym(e SymbolEntry, file string) bool {
+	return specName8(e.Main.Name, ".file") && e.Main.Value == 0 && e.Main.SectionNumber == -2 && e.Main.Type == 0 &&
+		e.Main.StorageClass == 103 && e.Main.NumberOfAuxSymbols == 1 && len(e.Aux) == 18 && len(file) <= 18 && specPad18(e.Aux, file)
+}
+
+func specSectionName(idx int) string {
+	switch idx {
+	case 0:
+		return ".text"
+	case 1:
+		return ".data"
+	}
+	return ".bss"
+}
+
+// specSectionSym: section symbol number idx (0 based) with its auxiliary record (5.5.5: length,
+// relocation and line number counts; the rest zero).
+func specSectionSym(e SymbolEntry, idx int, size uint32) bool {
+	return specSectionMain(e.Main, idx) && specSectionAux(e.Aux, size)
+}
+
+// specUserSym: an external symbol for name; defined ones belong to section 1 at the label's offset.
+func specUserSym(e SymbolEntry, tab []byte, name string, defined bool, addr int32) bool {
+	return specNameIs(e.Main.Name, tab, name) && e.Main.StorageClass == 2 && e.Main.Type == 0 && e.Main.NumberOfAuxSymbols == 0 && e.Aux == nil &&
+		(defined && e.Main.SectionNumber == 1 && e.Main.Value == uint32(addr) || !defined && e.Main.SectionNumber == 0 && e.Main.Value == 0)
+}
+
+// specUserFields: what every external symbol record looks like.
+func specUserFields(e SymbolEntry) bool {
+	return e.Main.StorageClass == 2 && e.Main.Type == 0 && e.Main.NumberOfAuxSymbols == 0 && e.Aux == nil &&
+		(e.Main.SectionNumber == 1 || e.Main.SectionNumber == 0 && e.Main.Value == 0)
+}
+
+// specUserSymM: specUserSym with the name tied to the de-duplication map (see specNameIsM).
+func specUserSymM(e SymbolEntry, m map[string]uint32, name string, defined bool, addr int32) bool {
+	return specNameIsM(e.Main.Name, m, name) &&
+		(defined && e.Main.SectionNumber == 1 && e.Main.Value == uint32(addr) || !defined && e.Main.SectionNumber == 0 && e.Main.Value == 0)
+}
+
+// specUserAt: the user symbol number k (in declaration order: GLOBAL names, then EXTERN names).
+func specUserAt(e SymbolEntry, tab []byte, globals, externs []string, symtab map[string]int32, k int) bool {
+	if k < len(globals) {
+		return specUserSym(e, tab, globals[k], specHas32(symtab, globals[k]), symtab[globals[k]])
+	}
+	return specUserSym(e, tab, externs[k-len(globals)], false, 0)
+}
+
+func specHas32(m map[string]int32, k string) bool { _, ok := m[k]; return ok }
+
+// specNamesSmall (assumption A14): at most 65536 names of at most 4096 bytes each, so that string
+// table offsets fit the 32-bit fields with room to spare.
+func specNamesSmall(l []string) bool {
+	return len(l) <= 1<<16 && forall(0, len(l), func(k int) bool { return len(l[k]) <= 4096 })
+}
+
+//@ func (*CoffFormat).generateSymbolEntries
+//@ props C08 C09 C13
+//@ requires ctx != nil
+//@ requires[A14] specNamesSmall(ctx.GlobalSymbolList) && specNamesSmall(ctx.ExternSymbolList)
+//@ loop 0 invariant[sec] using(sec) len(allEntries) == 1+iter && iter <= 3
+//@ loop 0 invariant[shape] using(shape) len(sectionNames) == 3 && len(sectionDataSizes) == 3 && len(sectionRelocs) == 3 && len(sectionLineNums) == 3 && sectionNames[0] == ".text" && sectionNames[1] == ".data" && sectionNames[2] == ".bss" && sectionDataSizes[0] == textDataSize && sectionDataSizes[1] == dataDataSize && sectionDataSizes[2] == bssDataSize && sectionRelocs[0] == 0 && sectionRelocs[1] == 0 && sectionRelocs[2] == 0 && sectionLineNums[0] == 0 && sectionLineNums[1] == 0 && sectionLineNums[2] == 0
+//@ loop 0 invariant[tabptr] using(tabptr) stringTable != nil && stringTableOffsetMap != nil
+//@ loop 0 invariant[tab] using(tabptr, tab) len(stringTable.Bytes()) == 0 && specStrTabOK(stringTable.Bytes(), stringTableOffsetMap)
+//@ loop 0 invariant[file] using(sec, file) specFileSymOrLong(allEntries[0], fileName)
+//@ loop 0 invariant[secmain] using(sec, shape, secmain) (iter >= 1 ==> specSectionMain(allEntries[1].Main, 0)) && (iter >= 2 ==> specSectionMain(allEntries[2].Main, 1)) && (iter >= 3 ==> specSectionMain(allEntries[3].Main, 2))
+//@ loop 0 invariant[secaux1] using(sec, shape, secaux1) iter >= 1 ==> specSectionAux(allEntries[1].Aux, textDataSize)
+//@ loop 0 invariant[secaux2] using(sec, shape, secaux2) iter >= 2 ==> specSectionAux(allEntries[2].Aux, dataDataSize)
+//@ loop 0 invariant[secaux3] using(sec, shape, secaux3) iter >= 3 ==> specSectionAux(allEntries[3].Aux, bssDataSize)
+//@ loop 1 invariant[len] using(sec, len) len(allEntries) == 4+iter
+//@ loop 1 invariant[tabptr] using(tabptr) stringTable != nil && stringTableOffsetMap != nil
+//@ loop 1 invariant[tablen] using(tabptr, tablen, convertNameToBytes.bound) len(stringTable.Bytes()) <= iter*4097
+//@ loop 1 invariant[tab] using(tabptr, tab, convertNameToBytes.tab) specStrTabOK(stringTable.Bytes(), stringTableOffsetMap)
+//@ loop 1 invariant[flds] using(len, flds) forall(0, iter, func(j int) bool { return specUserFields(allEntries[4+j]) })
+//@ loop 1 invariant[syms] using(len, tabptr, syms, convertNameToBytes.nameM, convertNameToBytes.mono) forall(0, iter, func(j int) bool { return specUserSymM(allEntries[4+j], stringTableOffsetMap, ctx.GlobalSymbolList[j], specHas32(ctx.SymTable, ctx.GlobalSymbolList[j]), ctx.SymTable[ctx.GlobalSymbolList[j]]) })
+//@ loop 2 invariant[len] using(len) len(allEntries) == 4+len(ctx.GlobalSymbolList)+iter
+//@ loop 2 invariant[tabptr] using(tabptr) stringTable != nil && stringTableOffsetMap != nil
+//@ loop 2 invariant[tablen] using(tabptr, tablen, convertNameToBytes.bound) len(stringTable.Bytes()) <= (len(ctx.GlobalSymbolList)+iter)*4097
+//@ loop 2 invariant[tab] using(tabptr, tab, convertNameToBytes.tab) specStrTabOK(stringTable.Bytes(), stringTableOffsetMap)
+//@ loop 2 invariant[flds] using(len, flds) forall(0, len(ctx.GlobalSymbolList)+iter, func(j int) bool { return specUserFields(allEntries[4+j]) })
+//@ loop 2 invariant[syms] using(len, tabptr, syms, convertNameToBytes.mono) forall(0, len(ctx.GlobalSymbolList), func(j int) bool { return specUserSymM(allEntries[4+j], stringTableOffsetMap, ctx.GlobalSymbolList[j], specHas32(ctx.SymTable, ctx.GlobalSymbolList[j]), ctx.SymTable[ctx.GlobalSymbolList[j]]) })
+//@ loop 2 invariant[exts] using(len, tabptr, exts, convertNameToBytes.nameM, convertNameToBytes.mono) forall(len(ctx.GlobalSymbolList), len(ctx.GlobalSymbolList)+iter, func(j int) bool { return specUserSymM(allEntries[4+j], stringTableOffsetMap, ctx.ExternSymbolList[j-len(ctx.GlobalSymbolList)], false, 0) })
+//@ ensures[count] using(len) len(result0) == 4+len(ctx.GlobalSymbolList)+len(ctx.ExternSymbolList)
+//@ ensures[file] using(sec, file, len, prefix, sort) specFileSym(result0[0], ctx.SourceFileName)
+//@ ensures[section1] using(sec, shape, secmain, secaux1, len, prefix, sort) specSectionSym(result0[1], 0, textDataSize)
+//@ ensures[section2] using(sec, shape, secmain, secaux2, len, prefix, sort) specSectionSym(result0[2], 1, dataDataSize)
+//@ ensures[section3] using(sec, shape, secmain, secaux3, len, prefix, sort) specSectionSym(result0[3], 2, bssDataSize)
+//@ ensures[aux.fixed] using(sec, shape, file, secmain, secaux1, secaux2, secaux3, len, prefix, sort) specAuxOK(result0[0]) && specAuxOK(result0[1]) && specAuxOK(result0[2]) && specAuxOK(result0[3])
+//@ ensures[user] using(len, flds, sort) forall(0, len(result0)-4, func(a int) bool { return specUserFields(result0[4+a]) && specAuxOK(result0[4+a]) })
+//@ ensures[order] using(len, sort) forall(0, len(result0)-4, func(a int) bool { return forall(a+1, len(result0)-4, func(b int) bool { return (result0[4+a].Main.SectionNumber == 0 ==> result0[4+b].Main.SectionNumber == 0) && (result0[4+b].Main.SectionNumber != 0 ==> result0[4+a].Main.Value <= result0[4+b].Main.Value) }) })
+//@ ensures[names] using(len, tabptr, tab, flds, syms, exts, sort) forall(0, len(result0)-4, func(a int) bool { return 0 <= vcSortPerm(a) && vcSortPerm(a) < len(result0)-4 && specUserAt(result0[4+a], result1, ctx.GlobalSymbolList, ctx.ExternSymbolList, ctx.SymTable, vcSortPerm(a)) })
+//@ assigns nothing
+
+// specSectionMain / specSectionAux: the two halves of specSectionSym.
+func specSectionMain(m CoffSymbol, idx int) bool {
+	return specName8(m.Name, specSectionName(idx)) && m.Value == 0 && m.SectionNumber == int16(idx+1) && m.Type == 0 && m.StorageClass == 3 && m.NumberOfAuxSymbols == 1
+}
+
+func specSectionAux(a []byte, size uint32) bool {
+	return len(a) == 18 && specLE32(a, 0) == size && specZero4to18(a)
+}
+
+// specFileSymOrLong is specFileSym without the demand that the name fits one record (used in
+// invariants so that the known finding about long names does not hide the rest).
+func specFileSymOrLong(e SymbolEntry, file string) bool {
+	return specName8(e.Main.Name, ".file") && e.Main.Value == 0 && e.Main.SectionNumber == -2 && e.Main.Type == 0 &&
+		e.Main.StorageClass == 103 && e.Main.NumberOfAuxSymbols == 1 && len(e.Aux) == 18 && specPad18(e.Aux, file)
+}
+
+func specSize3(j int, a, b, c uint32) uint32 {
+	switch j {
+	case 0:
+		return a
+	case 1:
+		return b
+	}
+	return c
+}
